@@ -11,6 +11,7 @@ import Reamber.Lemmas.O2JHeader
 import Reamber.Lemmas.O2JFrame
 import Reamber.Lemmas.O2JRead
 import Reamber.Lemmas.O2JX
+import Reamber.Lemmas.O2JEncode
 import Reamber.Spec.Timing
 
 namespace Reamber.O2J
@@ -568,5 +569,100 @@ theorem inf_tempo_counterexample :
 theorem readFileAt_eq (fs : String → Option (List Nat)) (path : String) (bs : List Nat) (h : fs path = some bs) :
     readFileAt fs path = some (readFileX bs) := by
   simp [readFileAt, h]
+
+
+/-! ### round trip: the by-the-book encoder, then the reader (`Lemmas/O2JEncode.lean`) -/
+
+/-- **Round trip for all abstract charts.**  For every valid abstract chart — any header values, three difficulties of
+any number of note and tempo packages, any slot counts, tempo events anywhere, long notes across packages and
+measures, any trailing bytes — the reader applied to the bytes of the by-the-book encoder returns the chart's own
+timeline `aTimeline` (header attributes as given, per difficulty the paired notes and tempo points at `posTime` of
+their positions `measure + i/n`), which is computed from the abstract chart alone.  So `Spec.wellFormed` contains the
+image of the encoder (`wellFormed_encodeChart`) and `read_spec` is non-vacuous at that scale. -/
+theorem read_encode (c : AChart) (q : Rat) (hv : c.Valid q) : readFile (encodeChart c) = aTimeline q c := by
+  rw [read_spec _ (wellFormed_encodeChart c q hv), specSet_encodeChart c q hv]
+
+/-- … and that timeline exists: the read succeeds, with the abstract header and exactly three levels -/
+theorem read_encode_ok (c : AChart) (q : Rat) (hv : c.Valid q) :
+    ∃ outs, readFile (encodeChart c) = .ok ⟨headerAttrs c.header c.counts, outs⟩ ∧ outs.length = 3 := by
+  obtain ⟨outs, h1, h2⟩ := aTimeline_ok c q hv
+  exact ⟨outs, by rw [read_encode c q hv, h1], h2⟩
+
+/-- the same for the reader over the whole float32 range -/
+theorem readX_encode (c : AChart) (q : Rat) (hv : c.Valid q) :
+    readFileX (encodeChart c) = (aTimeline q c).map FileOut.toX := by
+  rw [read_spec_X _ (wellFormed_encodeChart c q hv), specSet_encodeChart c q hv]
+
+/-- **the map-set level metadata comes back**: title / artist / creator (their bytes without NULs and non-ASCII bytes —
+`decode("ascii", errors="ignore")`), genre, the four levels, the song id and the header tempo of the abstract header
+are the attributes of the result -/
+theorem read_encode_metadata (c : AChart) (q : Rat) (hv : c.Valid q) (out : FileOut)
+    (ho : readFile (encodeChart c) = .ok out) :
+    lookupMeta out.header "title" = some (.text (c.header.title.filter (fun b => b ≠ 0 && b < 128))) ∧
+    lookupMeta out.header "artist" = some (.text (c.header.artist.filter (fun b => b ≠ 0 && b < 128))) ∧
+    lookupMeta out.header "creator" = some (.text (c.header.creator.filter (fun b => b ≠ 0 && b < 128))) ∧
+    lookupMeta out.header "genre" = some (.int c.header.genre) ∧
+    lookupMeta out.header "level" = some (.list (c.header.level.map Field.int)) ∧
+    lookupMeta out.header "song_id" = some (.int c.header.songId) ∧
+    lookupMeta out.header "bpm" = some (.flt (.fin q)) ∧
+    packageCounts out.header = c.counts := by
+  obtain ⟨outs, h1, _⟩ := read_encode_ok c q hv
+  rw [h1] at ho
+  cases ho
+  refine ⟨lookup_title_headerAttrs _ _, lookup_artist_headerAttrs _ _, lookup_creator_headerAttrs _ _,
+    lookup_genre_headerAttrs _ _, lookup_level_headerAttrs _ _, lookup_song_id_headerAttrs _ _, ?_,
+    packageCounts_headerAttrs _ _⟩
+  rw [lookup_bpm_headerAttrs, hv.tempo]
+
+/-- … with the text codec as a parameter: whatever codec `enc`/`dec` the writer of the file used for the title, if the
+encoded title fits the 64-byte field and consists of non-NUL ASCII bytes, the title attribute decodes to the title -/
+theorem read_encode_title_codec (enc : String → List Nat) (dec : List Nat → String) (hdec : ∀ s, dec (enc s) = s)
+    (t : String) (c : AChart) (q : Rat) (hv : c.Valid q) (ht : c.header.title = enc t)
+    (hclean : ∀ b ∈ enc t, b ≠ 0 ∧ b < 128) (out : FileOut) (ho : readFile (encodeChart c) = .ok out) :
+    ∃ bs, lookupMeta out.header "title" = some (.text bs) ∧ dec bs = t := by
+  refine ⟨enc t, ?_, hdec t⟩
+  rw [(read_encode_metadata c q hv out ho).1, ht, text_clean _ hclean]
+
+/-- non-vacuity of `read_encode`: a valid abstract chart (difficulty 2: a long note across two packages, a tempo
+event, a hit; empty difficulties 1 and 3; three trailing bytes) and what the reader makes of its bytes -/
+def sampleChart : AChart := ⟨sampleHeader, [[], exLevel, []], [1, 2, 3]⟩
+
+theorem sampleChart_valid : sampleChart.Valid 120 where
+  header := by decide
+  three := rfl
+  sizes := by
+    intro l hl
+    simp only [sampleChart, List.mem_cons, List.mem_nil_iff, or_false] at hl
+    rcases hl with rfl | rfl | rfl <;> decide
+  pkgs := by
+    intro l hl p hp
+    simp only [sampleChart, List.mem_cons, List.mem_nil_iff, or_false] at hl
+    rcases hl with rfl | rfl | rfl
+    · cases hp
+    · exact exLevel_valid p hp
+    · cases hp
+  tempo := by decide +kernel
+  tempo_ne := by decide
+  paired := by
+    intro l hl
+    simp only [sampleChart, List.mem_cons, List.mem_nil_iff, or_false] at hl
+    rcases hl with rfl | rfl | rfl
+    · exact ⟨[], rfl⟩
+    · cases h : pairFrom [] (exLevel.flatMap aSlots) with
+      | ok ns => exact ⟨ns, rfl⟩
+      | error e =>
+        have : (pairFrom [] (exLevel.flatMap aSlots)).toOption.isSome = true := by decide +kernel
+        rw [h] at this
+        cases this
+    · exact ⟨[], rfl⟩
+  closed := by
+    intro l hl
+    simp only [sampleChart, List.mem_cons, List.mem_nil_iff, or_false] at hl
+    rcases hl with rfl | rfl | rfl <;> decide +kernel
+
+example : ((readFile (encodeChart sampleChart)).toOption.map
+    (fun o => o.levels.map (fun l => (l.notes.map (fun n => (n.time, n.len)), l.bpms.map (·.time))))).getD []
+    = [([], [0]), ([(1000, some 1500), (2000, none)], [0, 3000]), ([], [0])] := by
+  decide +kernel
 
 end Reamber.O2J
